@@ -210,7 +210,7 @@ Proof.
     intros st rest. unfold pend. cbn [stoks].
     destruct (o =? Product) eqn:EP.
     + apply Nat.eqb_eq in EP. subst o.
-      destruct D as [[[F|F] _]|[[_ Hlen]|(i & n & F & _)]]; try discriminate; [|lia].
+      destruct D as [[[F|F] _]|[[_ Hlen]|(i & n & F & _)]]; try discriminate; try (exfalso; lia).
       destruct args as [|a [|b [|c args]]]; try discriminate.
       inversion HR as [|? ? Ra HR']; subst. inversion HR' as [|? ? Rb _]; subst.
       cbn [forallb] in HW. apply andb_true_iff in HW as [Wa HW].
@@ -303,12 +303,12 @@ Proof.
     intros r Hr. cbn [stext stoks].
     destruct (o =? Product) eqn:EP.
     + apply Nat.eqb_eq in EP. subst o.
-      destruct D as [[[F|F] _]|[[_ Hlen]|(i & n & F & _)]]; try discriminate; [|lia].
+      destruct D as [[[F|F] _]|[[_ Hlen]|(i & n & F & _)]]; try discriminate; try (exfalso; lia).
       destruct args as [|a [|b [|c args]]]; try discriminate.
       inversion HT as [|? ? Ta HT']; subst. inversion HT' as [|? ? Tb _]; subst.
       rewrite <- !app_assoc. cbn [app]. rewrite tokz_lp.
       rewrite Ta by reflexivity. rewrite tokz_prod. rewrite Tb by reflexivity.
-      rewrite tokz_rp. rewrite <- app_assoc. reflexivity.
+      rewrite tokz_rp. cbn [app]. repeat (rewrite <- app_assoc; cbn [app]). reflexivity.
     + destruct D as [[HTB ->]|[[-> _]|(i & n & -> & Hi)]]; [| discriminate |].
       * apply (tok_app L (op_name L o) []); auto. destruct HTB as [-> | ->]; reflexivity.
       * destruct (resolve_type L HL i n (length args) Hi) as [P _].
@@ -344,10 +344,6 @@ Proof.
   rewrite Forall_forall in IH. auto.
 Qed.
 
-(* concrete types printable and parseable in type notation: Top, Bottom,
-   products and the language's operators, no Function and no Unit *)
-Definition text_domb (L : lang) (t : ty) : bool := swfb L (embed t).
-
 Lemma text_embed L t : text_domb L t = true -> text_std L t = stext L (embed t).
 Proof.
   unfold text_domb. induction t as [o args IH] using ty_ind'. intros W.
@@ -379,3 +375,26 @@ Qed.
 (* the conditions on names follow from Language.add for the part it enforces *)
 Lemma built_nodup L : built L -> NoDup (tsnames L).
 Proof. intros B. apply names_ok_tsnames. now apply built_names_ok. Qed.
+
+(* ------------------------------------------------------------------ *)
+(* the pinned `*` branch takes only the last parameter of a compound left
+   operand: with A=5, F=6 (unary), "(F(A) * A)" parses to F((A * A)) *)
+Definition refTL : lang := mkLang [([65], 0); ([70], 1)] [([83], (1, AOp 6 [AVar 0]))] [].
+Definition refTT : ty := TOp Product [TOp 6 [TOp 5 []]; TOp 5 []].
+
+Lemma text_pinned_refuted :
+  exists L t t', lang_text_okb L = true /\ text_domb L t = true /\
+    parse_type_pinned L (text_std L t) = Ok t' /\ t' <> t.
+Proof.
+  exists refTL, refTT, (TOp 6 [TOp Product [TOp 5 []; TOp 5 []]]).
+  repeat split; try (vm_compute; reflexivity). discriminate.
+Qed.
+
+(* ... and the same for a parameterised synonym S(x) = F(x): "(S(A) * A)" *)
+Lemma alias_pinned_refuted :
+  exists L s t', lang_text_okb L = true /\ swfb L s = true /\
+    parse_type_pinned L (stext L s) = Ok t' /\ t' <> expand L s.
+Proof.
+  exists refTL, (STy Product [SAl 0 [STy 5 []]; STy 5 []]), (TOp 6 [TOp Product [TOp 5 []; TOp 5 []]]).
+  repeat split; try (vm_compute; reflexivity). discriminate.
+Qed.
